@@ -129,7 +129,7 @@ def rule_emittype(chk, prog, tier):
         import re
         lines = [l for l in textout.split('\n') if l.startswith('type :%s' % name)]
         got = re.sub(r':inner\.\d+', ':inner.N', lines[0].split('=', 1)[1].strip()) if lines else textout
-        inner_first = ('@inner' not in [tn for tn, _ in spec]) or textout.index('type :inner') < textout.index('type :%s' % name)
+        inner_first = ('@inner' not in [tn for tn, _ in spec]) or ('type :inner' in textout and 'type :%s' % name in textout and textout.index('type :inner') < textout.index('type :%s' % name))      # a nested type that is never emitted is not emitted first either
         r.instance(got == want and inner_first, 'emittype:%s' % name, 'qbe.c:%s' % fn.get('line'), 'expected `%s` (nested types first), got `%s`' % (want, got), sample='%s -> %s' % (name, got))
     r.exhaustive = False
 
